@@ -7,18 +7,26 @@ SEED="$1"; PKG="$2"; RE="$3"; shift 3
 export GOFLAGS=-mod=mod GOPROXY=off GOSUMDB=off GOTOOLCHAIN=local; unset GOWORK
 WT=$(mktemp -d /tmp/cf-XXXXXX); rmdir "$WT"
 git -C /repo worktree add --detach "$WT" HEAD >/dev/null 2>&1 || { echo "worktree failed"; exit 2; }
-trap 'git -C /repo worktree remove --force "$WT" >/dev/null 2>&1; rm -rf "$WT"' EXIT
+trap 'git -C /repo worktree remove --force "$WT" >/dev/null 2>&1; rm -rf "$WT" "$WT.time.go" "$WT.overlay.json"' EXIT
 cp "$SEED"/demo/*_test.go "$WT/$PKG/" 2>/dev/null
+# NTP_OVERLAY=1: packages importing consensus/ticker block in init() on an NTP query offline; build the demo with an
+# overlay whose only change is utility.ntpInitFlag = true (nothing in the worktree is modified)
+OV=""
+if [ "${NTP_OVERLAY:-0}" = "1" ]; then
+  sed 's/ntpInitFlag = false/ntpInitFlag = true/' "$WT/src/utility/time.go" > "$WT.time.go"
+  printf '{"Replace":{"%s/src/utility/time.go":"%s.time.go"}}' "$WT" "$WT" > "$WT.overlay.json"
+  OV="-overlay $WT.overlay.json"
+fi
 cd "$WT"
 echo "--- demo WITHOUT patch (expect ok)"
-go test -vet=off -count=1 -run "$RE" "./$PKG/" 2>&1 | tail -4
+go test $OV -vet=off -count=1 -timeout 20m -run "$RE" "./$PKG/" 2>&1 | tail -4
 R0=${PIPESTATUS[0]}
 git apply "$SEED/patch.diff" || { echo "PATCH DOES NOT APPLY"; exit 2; }
 echo "--- build with patch"
 go build ./... 2>&1 | grep -v "sqlite\|^\s\|^1232\|^#" | head -5
 B=${PIPESTATUS[0]}
 echo "--- demo WITH patch (expect FAIL)"
-go test -vet=off -count=1 -run "$RE" "./$PKG/" 2>&1 | tail -8
+go test $OV -vet=off -count=1 -timeout 20m -run "$RE" "./$PKG/" 2>&1 | tail -8
 R1=${PIPESTATUS[0]}
 echo "--- stable baseline tests of touched packages with patch"
 rm -f "$WT/$PKG"/seed_*_test.go "$WT/$PKG"/*seed*_test.go
